@@ -233,6 +233,46 @@ def run(ctx):
             ctx.spec_fail('mergesort|differs|sort-view-operands', 'mergesort over operands that are sort views differs from sort(cat(tables))',
                           {'a': repr(A), 'b': repr(B), 'key': repr(key), 'reverse': rev, 'real': got, 'sort(cat)': want})
 
+    # ---- a first pass that the source cut short: every later pass is still the complete sorted table
+    class FailsOnce(etl.Table):
+        def __init__(self, rows, at):
+            self.rows, self.at, self.armed = rows, at, True
+
+        def __iter__(self):
+            armed, self.armed = self.armed, False
+            for i, r in enumerate(self.rows):
+                if armed and i == self.at:
+                    raise IOError('source failed at item %d' % i)
+                yield tuple(r)
+    for ci in range(160 if ctx.thorough() else 50):
+        n = rng.choice([2, 3, 5, 8])
+        T = [['k', 'v']] + [[rng.choice([0, 1, 2, None]), 'r%d' % i] for i in range(n)]
+        at = rng.randrange(1, n + 2)            # item index of the fault (0 = header); n + 1 = never
+        bs = rng.choice([1, 2, 3, None])
+        cache = rng.random() < 0.7
+        rev = rng.random() < 0.3
+        src = FailsOnce(T, at)
+        view = etl.sort(src, 'k', reverse=rev, buffersize=bs, cache=cache)
+        try:
+            list(view)
+            faulted = False
+        except IOError:
+            faulted = True
+        want = pyref_sort(etl, T, 'k', rev)
+        ctx.case(('sort-after-fault', repr(T), at, bs, cache, rev))
+        ctx.count('sort:first-pass-' + ('cut-short' if faulted else 'complete'))
+        for p in (2, 3):
+            try:
+                got = [tuple(r) for r in view]
+            except Exception as e:
+                got = 'raised %s' % type(e).__name__
+            if got != want:
+                ctx.spec_fail('sort|after-faulted-pass|%s' % ('cache' if cache else 'nocache'),
+                              'a pass of sort() after a pass that the source cut short is not the complete sorted table',
+                              {'table': repr(T), 'source_fails_once_at_item': at, 'buffersize': bs, 'cache': cache, 'reverse': rev,
+                               'pass': p, 'real': repr(got), 'expected': repr(want)})
+                break
+
     # ---- operands that are sort views
     util.view_operand_cases(etl, rng, ctx, [
         ('sort', 1, lambda t: etl.sort(t, 'x')), ('sort(reverse)', 1, lambda t: etl.sort(t, 'x', reverse=True)),
